@@ -363,6 +363,27 @@ func (e *Engine) applyContract(fr *Frame, st *State, fn *ssa.Function, c *Contra
 	for _, m := range c.Modifies {
 		e.havocModifies(fr, st, env, m, cname)
 	}
+	// ghost events of the callee (sets ghost(g) = e) happen at its entry, whatever follows
+	applySets := func() {
+		for _, sc := range c.Sets {
+			be, ok := sc.Expr.(*ast.BinaryExpr)
+			if !ok {
+				continue
+			}
+			call, ok := be.X.(*ast.CallExpr)
+			if !ok || len(call.Args) != 1 {
+				continue
+			}
+			g := call.Args[0].(*ast.Ident).Name
+			tv := e.eval(env, be.Y)
+			if tv.Konst != nil {
+				st.ghost[g] = tv.Konst.String()
+			} else if sc2, ok := tv.V.(*Sc); ok {
+				st.ghost[g] = sc2.T
+			}
+		}
+	}
+	defer applySets()
 	if c.NoFrame {
 		// the callee's frame is not verified: nothing may be assumed unchanged
 		e.havocWholeHeap(st, "callee "+c.Key+" has no verified frame (noframe)", c.Preserves...)
